@@ -281,3 +281,27 @@ func VerifC16_Load() {
 	s.pollOffer("sid", "standalone", "", make(chan struct{}))
 	verifapi.Assert(verifPolls == 2, "two polls were made")
 }
+
+// VerifC16_TokensConcurrent: sessions that end at the same moment each release one slot.
+func VerifC16_TokensConcurrent() {
+	n := verifapi.Concrete(verifapi.Choice("capacity", 2)) * 2 // unlimited or 2
+	t := newTokens(uint(n))
+	t.get()
+	t.get()
+	done := make(chan bool, 2)
+	for g := 0; g < 2; g++ {
+		go func() {
+			t.ret()
+			done <- true
+		}()
+	}
+	<-done
+	<-done
+	verifapi.Cover("concurrent release")
+	verifapi.Assert(t.count() == 0, "C16: after all sessions ended - also when they end at the same moment - no slot is counted as in use")
+	if n != 0 {
+		verifapi.Assert(len(t.ch) == 0, "C16: the semaphore is empty again")
+	}
+	t.get()
+	verifapi.Assert(t.count() == 1, "C16: the proxy polls again with full capacity")
+}
